@@ -163,14 +163,14 @@ dm_harness!(dm_isize_2, isize, 2);
 dm_harness!(dm_usize_4, usize, 4);
 dm_harness!(dm_isize_4, isize, 4);
 
-// @verif prop=C18 tier=thorough fl=f2 role=metrics/usize t=3600 mem=24
+// @verif prop=C18 tier=exp fl=f2 role=metrics/usize t=3600 mem=24
 #[cfg_attr(kani, kani::proof)]
 #[cfg_attr(kani, kani::unwind(11))]
 pub fn c18_metrics_usize_n3() {
     dm_usize_3();
 }
 
-// @verif prop=C18 tier=thorough fl=f2 role=metrics/isize t=3600 mem=24
+// @verif prop=C18 tier=thorough fl=f2 role=metrics/isize t=3600 mem=16
 #[cfg_attr(kani, kani::proof)]
 #[cfg_attr(kani, kani::unwind(11))]
 pub fn c18_metrics_isize_n3() {
